@@ -634,8 +634,15 @@ def compute_next_steps(
             ):
                 end -= 1
 
-            assert actual_history[end]["type"] == "UtteranceUserActionFinished"
-            actual_history = actual_history[0:end]
+            if (
+                end >= 0
+                and actual_history[end]["type"] == "UtteranceUserActionFinished"
+            ):
+                actual_history = actual_history[0:end]
+            else:
+                # The turn was not started by a user utterance (e.g. by a custom event):
+                # there is no earlier turn to go back to.
+                actual_history = []
         else:
             actual_history.append(event)
 
